@@ -972,9 +972,21 @@ func cmapFamily(budget time.Duration) mc.Family {
 			}
 		}
 	}
+	// ranges with bounds of up to nine bytes and every kind of destination (the size of
+	// a range is a number of up to 72 bits)
+	bounds := []string{"<00>", "<ffff>", "<0000000000000000>", "<8000000000000000>", "<7fffffffffffffff>", "<ffffffffffffffff>", "<000000000000000000>", "<ffffffffffffffffff>"}
+	for _, k := range []string{"bfrange", "cidrange", "notdefrange", "codespacerange"} {
+		for _, lo := range bounds {
+			for _, hi := range bounds {
+				for _, dst := range []string{"[<0041> <0042>]", "[/a /b]", "<0041>", "<ffffffff>", "[ 300 {/n} repeat ]", "[]", "0", "9223372036854775807", "-1"} {
+					bodies = append(bodies, fmt.Sprintf("1 begin%s %s %s %s end%s", k, lo, hi, dst, k))
+				}
+			}
+		}
+	}
 	return mc.Family{
 		Name: "cmap-reader-bodies", Items: len(bodies), Budget: budget,
-		Rule: "ReadCMap on the standard resource prologue/epilogue around every block `count begin<kind> a b a end<kind>` for 7 kinds x 9 declared counts (incl. -1, 101, maxint, a string, missing) x 18 x 18 operand values of every type (incl. codes of 8 and 9 bytes and arrays of strings); x {with, without} the epilogue; non-trivial = every case",
+		Rule: "ReadCMap on the standard resource prologue/epilogue around every block `count begin<kind> a b a end<kind>` for 7 kinds x 9 declared counts (incl. -1, 101, maxint, a string, missing) x 18 x 18 operand values of every type (incl. codes of 8 and 9 bytes and arrays of strings), and 4 range kinds x 8 x 8 bounds of 1..9 bytes x 9 destinations; x {with, without} the epilogue; non-trivial = every case",
 		Body: func(c *mc.Ctx, item int) mc.Verdict {
 			in := pro + bodies[item]
 			if c.Choose(2) == 0 {
@@ -1011,7 +1023,7 @@ func main() {
 			budget := 40 * time.Second
 			arity, csLen, scanLen, lexLen, afmLen := 2, 3, 2, 4, 3
 			if tier == "thorough" {
-				budget = 10 * time.Minute
+				budget = 20 * time.Minute
 				arity, csLen, scanLen, lexLen, afmLen = 3, 4, 3, 5, 4
 			}
 			knobs := fontKnobCases()
